@@ -243,6 +243,9 @@ func cmdCheck(args []string) int {
 		if r.UnknownObl > 0 {
 			inconclusive = append(inconclusive, fmt.Sprintf("%s: %d obligation(s) with solver result unknown", j.Harness, r.UnknownObl))
 		}
+		if r.Unknown > 0 && r.UnknownObl == 0 {
+			fmt.Printf("NOTE: %s [%s]: %d branch-feasibility quer(ies) undecided within the per-query cap (both sides kept; max query %.1fs)\n", j.Harness, boundsStr(j.Bounds), r.Unknown, r.MaxQS)
+		}
 		if r.SolverErrs > 0 {
 			inconclusive = append(inconclusive, fmt.Sprintf("%s: %d solver error line(s)", j.Harness, r.SolverErrs))
 		}
@@ -611,7 +614,7 @@ func cmdServe(args []string) int {
 		if err != nil {
 			res = &WorkerResult{Harness: j.Harness, Bounds: j.Bounds, Error: "load: " + err.Error()}
 		} else {
-			tmo := 10000
+			tmo := 30000 // per query; a query still undecided after it is `unknown` => exit 2, never a pass
 			if *tier == "thorough" {
 				tmo = 120000
 			}
